@@ -26,7 +26,7 @@ RULE = ("payload trees (nesting <= 6) holding class-tagged dicts at any depth: t
         "encoded bytes); non-trivial = the payload contains at least one class-tagged dict")
 ASSUMPTIONS = ["CPython audit events cover import/exec/open/socket/subprocess/ctypes side effects", "marshal byte-level fuzz excluded (quantifier is over payload trees)",
                "converters registered by the harness itself are exempt, as the statement says"]
-REQUIRED_REACH = ["decoded_ok", "rejected", "must_raise_checked", "audit_allowed_events", "exceptions_built", "pyro_objects_built", "mutants_decoded", "converter_exemption_checked", "near_miss_tags_checked", "decodes_from_memoryview", "decodes_from_bytearray", "converter_history_decodes", "bulk_payloads"]
+REQUIRED_REACH = ["converter_withdrawn_during_decode_ok", "decoded_ok", "rejected", "must_raise_checked", "audit_allowed_events", "exceptions_built", "pyro_objects_built", "mutants_decoded", "converter_exemption_checked", "near_miss_tags_checked", "decodes_from_memoryview", "decodes_from_bytearray", "converter_history_decodes", "bulk_payloads"]
 SHARD_TIMEOUT = {"quick": 220, "thorough": 2400}
 
 SAFE_TAGS = ["Pyro5.core.URI", "Pyro5.client.Proxy", "Pyro5.server.Daemon", "Pyro5.util.SerpentSerializer", "Pyro5.util.MarshalSerializer",
@@ -607,8 +607,36 @@ def converter_history(env, rec, r, nops):
                                     name, "loadsCall" if call else "loads", t, model[t], steps[-8:], err, new), None)
                                 return
                         rec.count("converter_history_decodes")
+        # a converter that is withdrawn WHILE a message is being decoded (a redeem-once hook takes itself out of the registry when it runs):
+        # from that moment on the tag is a foreign tag again, also for the rest of the message that is being decoded
+        once_tag = "c04h.Once"
+        for name in fixture.SERIALIZERS:
+            ser = P.serializers.serializers[name]
+            for call in (False, True):
+                via = r.choice(vias)
+                once_calls = []
+
+                def once(cn, d, via=via, once_calls=once_calls):
+                    once_calls.append(d.get("v"))
+                    via[2](once_tag)
+                    return ("redeemed", d.get("v"))
+                via[1](once_tag, once)
+                nodes = [{"__class__": once_tag, "v": 1}, {"k": {"__class__": once_tag, "v": 2}}, [{"__class__": once_tag, "v": 3}]]
+                data = encode(name, (nodes, {}) if call else nodes, call)
+                rec.case(("conv-once", name, call, via[0]), nontrivial=True)
+                try:
+                    ser.loadsCall(data) if call else ser.loads(data)
+                    err = None
+                except Exception as x:
+                    err = x
+                if len(once_calls) > 1 or err is None:
+                    rec.violation("converter-called-after-unregister", "%s.%s: the converter for %r unregistered itself (via %s) when it converted the first of three tagged dicts of one message; "
+                                  "it was called %d times (%r) and decoding %s" % (name, "loadsCall" if call else "loads", once_tag, via[0], len(once_calls), once_calls,
+                                                                                     "raised %r" % (err,) if err is not None else "accepted the message"), None)
+                    return
+                rec.count("converter_withdrawn_during_decode_ok")
     finally:
-        for t in tags:
+        for t in tags + ["c04h.Once"]:
             for via in vias:
                 try:
                     via[2](t)
